@@ -1489,7 +1489,7 @@ fn main() {
     kvh::quiet_panics();
     let args = Args::parse();
     let mut rep = Report::new("C15", &args);
-    rep.rule = "each case is one model-protocol request: (operation, subject string in a storage form, arguments); subjects: exhaustive strings over a 10-symbol alphabet (1/2/3/4-byte characters, combining mark, CR, LF, space, pattern characters, a character with a multi-character case image) up to a length bound × storage forms × all byte indices -1..len+1 and all ranges over them × every modelled operation; literals over an escape alphabet; format-option strings over an option alphabet; the format grid × values; seeded random longer strings over an extended alphabet. distinct = distinct request lines; non-trivial = subject of at least 2 characters (escape cases: contains a backslash; format cases: non-empty options)".into();
+    rep.rule = "each case is one model-protocol request: (operation, subject string in a storage form, arguments); subjects: exhaustive strings over a 10-symbol alphabet (1/2/3/4-byte characters, combining mark, CR, LF, space, pattern characters, a character with a multi-character case image) up to a length bound × storage forms × all byte indices -1..len+1 and all ranges over them × every modelled operation; a self-overlapping family for the pattern-taking functions (all subjects up to 6/7 letters over {a,b,é} × all patterns up to 3 letters, periodic patterns with subjects p^k plus proper prefixes/suffixes); literals over an escape alphabet; format-option strings over an option alphabet; the format grid × values; seeded random longer strings over an extended alphabet. distinct = distinct request lines; non-trivial = subject of at least 2 characters (escape cases: contains a backslash; format cases: non-empty options)".into();
     let open: Vec<String> = rep.known_open().iter().filter_map(|e| e.get("id").and_then(|x| x.as_str()).map(|s| s.to_string())).collect();
     let drv = if args.driver.is_empty() { None } else { Some(Driver::spawn(&args.driver)) };
     let mut all_chars: Vec<char> = vec![];
@@ -1634,6 +1634,70 @@ fn main() {
                "patterns": PATTERNS,
                "per_subject": "idx rng unpx unph unpt chars rchars cidx lines trim (+ bytes case pat×patterns trimp×patterns replace×7 repeat×4 for all subjects up to the short bound and every 7th longer one)"}),
     );
+
+    // ---- 1b. self-overlapping subject/pattern family ----------------------------------------------------
+    // Pattern-taking functions (trim*, split, strip_*, contains/starts/ends_with, replace) on subjects in
+    // which occurrences of the pattern overlap each other and both ends: exhaustive subjects over a
+    // 3-letter alphabet (one multi-byte) x all patterns up to 3 letters, plus periodic patterns with
+    // subjects built from pattern repetitions and proper prefixes/suffixes (lengths k*|p| +- j).
+    {
+        const OV: &[&str] = &["a", "b", "é"];
+        let ov_len = if thorough { 7 } else { 6 };
+        let mut ov_subjects: Vec<String> = vec![];
+        for len in 0..=ov_len {
+            enumerate(OV, len, &mut |s| ov_subjects.push(s));
+        }
+        let mut ov_patterns: Vec<String> = vec![];
+        for len in 1..=3 {
+            enumerate(OV, len, &mut |s| ov_patterns.push(s));
+        }
+        let mut pairs: Vec<(String, String)> = vec![];
+        for s in &ov_subjects {
+            for p in &ov_patterns {
+                pairs.push((s.clone(), p.clone()));
+            }
+        }
+        for p in ["aa", "aba", "abab", "éé", "éaé", "aéa", "aaa", "abaab", "a,a", "\r\n\r", ",,", "字字"] {
+            let p = p.to_string();
+            let cs: Vec<char> = p.chars().collect();
+            for k in 0..=4usize {
+                let body = p.repeat(k);
+                for i in 0..cs.len() {
+                    let pre: String = cs[..i].iter().collect();
+                    for j in 0..cs.len() {
+                        let suf: String = cs[cs.len() - j..].iter().collect();
+                        pairs.push((format!("{}{}{}", suf, body, pre), p.clone()));
+                    }
+                }
+            }
+        }
+        let mut lits: Vec<String> = pairs.iter().map(|(s, _)| s.clone()).collect();
+        lits.sort();
+        lits.dedup();
+        lits.retain(|s| !cx.rt.lit_cache.contains_key(s));
+        cx.rt.compile_lits(&lits);
+        let n_pairs = pairs.len();
+        for (i, (s, p)) in pairs.into_iter().enumerate() {
+            if !seg_consistent(&s) {
+                cx.seg_inconsistent += 1;
+                continue;
+            }
+            let d = if i % 2 == 0 { Desc::Lit(s.clone()) } else { Desc::Full(s.clone()) };
+            let dt = d.text();
+            let ph = hex(p.as_bytes());
+            cx.push(format!("trimp {} {}", dt, ph));
+            cx.push(format!("pat {} {} {}", dt, ph, gtab(&s)));
+            cx.push(format!("replace {} {} {}", dt, ph, if i % 3 == 0 { "x" } else { "xc3a92d" }));
+            cx.rep.bump("overlap_family_pairs");
+        }
+        cx.rep.extra.insert(
+            "overlap_family".into(),
+            json!({"alphabet": OV, "subject_max_len": ov_len, "pattern_max_len": 3, "pairs": n_pairs,
+                   "periodic_patterns": "aa aba abab éé éaé aéa aaa abaab a,a CRLFCR ,, 字字 with subjects suffix(p)+p^k+prefix(p), k=0..4",
+                   "ops": "trimp (trim/trim_start/trim_end with pattern), pat (split, split-with, strip_prefix/suffix, contains, starts_with, ends_with), replace"}),
+        );
+    }
+    cx.phase("overlap-family");
 
     // ---- 2. to_number ----------------------------------------------------------------------------------
     let num_len = if thorough { 4 } else { 3 };
